@@ -367,6 +367,13 @@ class Interp:
                 return self.resolve_T(parse_T(found.pop()))
         return None
 
+    def field_T_any(self, fld: str) -> Optional[T]:
+        """field of an object whose static class is unknown: usable when every class model that has the field agrees on its sort"""
+        found = {m["fields"][fld] for m in self.classes.values() if m.get("kind") == "value" and fld in m.get("fields", {})}
+        if len(found) == 1:
+            return self.resolve_T(parse_T(found.pop()))
+        return None
+
     def model_is_sub(self, n, base) -> bool:
         while n is not None:
             if n == base:
